@@ -253,9 +253,10 @@ def inline_closures(toks, log):
         progress = False
         i = 0
         while i + 4 < len(out):
-            if out[i] == "let" and IDENT_RE.match(out[i + 1]) and out[i + 2] == "=" and (out[i + 3] == "|" or (out[i + 3] == "move" and out[i + 4] == "|")):
-                name = out[i + 1]
-                p0 = i + 4 if out[i + 3] == "|" else i + 5
+            m = 1 if out[i + 1] == "mut" else 0
+            if out[i] == "let" and i + 5 + m < len(out) and IDENT_RE.match(out[i + 1 + m]) and out[i + 2 + m] == "=" and (out[i + 3 + m] == "|" or (out[i + 3 + m] == "move" and out[i + 4 + m] == "|")):
+                name = out[i + 1 + m]
+                p0 = i + 4 + m if out[i + 3 + m] == "|" else i + 5 + m
                 p1 = p0
                 while p1 < len(out) and out[p1] != "|":
                     p1 += 1
@@ -272,15 +273,22 @@ def inline_closures(toks, log):
                 if cur: params.append(cur)
                 if any(not IDENT_RE.match(p[0]) or (len(p) > 1 and p[1] != ":") for p in params):
                     i += 1; continue
-                # body: up to the `;` at depth 0
+                # body: up to the `;` at depth 0 (an explicit `-> Type` in front of a block body becomes the type of a local holding the result)
                 k = p1 + 1
+                body_start = k
+                ret_ty = None
+                if k < len(out) and out[k] == "->":
+                    while k < len(out) and out[k] != "{":
+                        k += 1
+                    ret_ty = out[body_start + 1:k]
+                    body_start = k
                 while k < len(out) and out[k] != ";":
                     if out[k] in ("(", "[", "{"):
                         k = match_close(out, k)
                     k += 1
                 if k >= len(out):
                     i += 1; continue
-                body = out[p1 + 1:k]
+                body = out[body_start:k]
                 rest = out[k + 1:]
                 # uses
                 uses = [j for j, t in enumerate(rest) if t == name]
@@ -291,6 +299,15 @@ def inline_closures(toks, log):
                 body_ids = {t for t in body if IDENT_RE.match(t)} - {p[0] for p in params}
                 last = uses[-1] if uses else 0
                 rebound = {rest[j + 1] if rest[j + 1] != "mut" else rest[j + 2] for j in range(min(last, len(rest) - 2)) if rest[j] == "let"}
+                # `?` inside the closure leaves the closure, not the function: inlining keeps the meaning only if every call is itself
+                # immediately followed by `?` (the error goes to the caller's caller either way); `return` in the body: decline
+                if "return" in body:
+                    ok = False
+                if "?" in body:
+                    for j in uses:
+                        c = match_close(rest, j + 1) if j + 1 < len(rest) and rest[j + 1] == "(" else None
+                        if c is None or c + 1 >= len(rest) or rest[c + 1] != "?":
+                            ok = False
                 if not ok or (rebound & body_ids) or name in body:
                     i += 1; continue
                 new_rest, j = [], 0
@@ -312,7 +329,10 @@ def inline_closures(toks, log):
                         new_rest.append("{")
                         for p, a in zip(params, args):
                             new_rest += ["let", *p, "=", *a, ";"]
-                        new_rest += [*body, "}"]
+                        if ret_ty:
+                            new_rest += ["let", "verif_closure_result", ":", *ret_ty, "=", *body, ";", "verif_closure_result", "}"]
+                        else:
+                            new_rest += [*body, "}"]
                         j = c + 1
                     else:
                         new_rest.append(rest[j]); j += 1
